@@ -108,7 +108,8 @@ def check(toks, resp, mode, build):
         x, y = E.pD(toks[1]), E.pD(toks[2])
         c = cmpv(x[0], x[1], y[0], y[1])
         pr = "%d%d%d%d" % (x[0] == 0, x[0] == P10[x[1]], x[0] < 0, x[0] > 0)
-        want = "C aa=%s:%d:%d ad=%s:%d da=%s:%d pr=%s" % (bits4(c), c, c, bits4(c), c, bits4(c), c, pr)
+        lg = "%d%d" % (c <= 0, c >= 0) * 3
+        want = "C aa=%s:%d:%d ad=%s:%d da=%s:%d pr=%s lg=%s mm=11" % (bits4(c), c, c, bits4(c), c, bits4(c), c, pr, lg)
         return ("ok" if resp.raw == want else "viol"), "rk_cmp." + ("packed" if "packed" in build else "derived"), x[1] != y[1], want
     raise ValueError(op)
 
